@@ -1063,11 +1063,11 @@ Lemma anchored_same x y y' id :
 Proof. intros E1 E2 E3 (top & Er & Rw). exists top. rewrite E1, E2, E3. auto. Qed.
 
 Fixpoint frame_ind' (P : frame -> Prop) (HOp : forall o, P (FOp o))
-    (HCall : forall body fails, Forall P body -> P (FCall body fails)) (f : frame) : P f :=
+    (HCall : forall body e, Forall P body -> P (FCall body e)) (f : frame) : P f :=
   match f with
   | FOp o => HOp o
-  | FCall body fails =>
-      HCall body fails ((fix go (l : list frame) : Forall P l :=
+  | FCall body e =>
+      HCall body e ((fix go (l : list frame) : Forall P l :=
                            match l with
                            | [] => Forall_nil P
                            | g :: l' => Forall_cons g (frame_ind' P HOp HCall g) (go l')
@@ -1075,22 +1075,22 @@ Fixpoint frame_ind' (P : frame -> Prop) (HOp : forall o, P (FOp o))
   end.
 
 (* the flag only ever goes from true to false *)
-Lemma fold_flag fx (l : list frame) :
-  (forall f y b, In f l -> snd (exec fx f (y, b)) = true -> b = true) ->
-  forall acc, snd (fold_left (fun acc g => exec fx g acc) l acc) = true -> snd acc = true.
+Lemma fold_flag fx oog (l : list frame) :
+  (forall f y b, In f l -> snd (exec fx oog f (y, b)) = true -> b = true) ->
+  forall acc, snd (fold_left (fun acc g => exec fx oog g acc) l acc) = true -> snd acc = true.
 Proof.
   induction l as [|g l IH]; intros H acc; cbn [fold_left]; [auto|].
   intros E. apply IH in E; [|intros f y b Hf; apply H; right; exact Hf].
   destruct acc as [y b]. cbn [snd]. apply (H g y b (or_introl eq_refl) E).
 Qed.
 
-Lemma exec_flag fx f : forall y b, snd (exec fx f (y, b)) = true -> b = true.
+Lemma exec_flag fx oog f : forall y b, snd (exec fx oog f (y, b)) = true -> b = true.
 Proof.
-  induction f as [o|body fails IHb] using frame_ind'; intros y b; cbn [exec fst snd].
+  induction f as [o|body e IHb] using frame_ind'; intros y b; cbn [exec fst snd].
   - intros H. apply andb_prop in H as [H _]. apply andb_prop in H as [H _]. exact H.
   - intros H.
-    assert (snd (fold_left (fun acc g => exec fx g acc) body (fst (step fx y OSnapshot), b)) = true) as H'
-      by (destruct fails; exact H).
+    assert (snd (fold_left (fun acc g => exec fx oog g acc) body (fst (step fx y OSnapshot), b)) = true) as H'
+      by (destruct (ending_reverts oog e); exact H).
     apply fold_flag in H'; [exact H'|].
     intros f y0 b0 Hf. rewrite Forall_forall in IHb. apply (IHb f Hf).
 Qed.
@@ -1101,23 +1101,23 @@ Definition frame_ok (fx : bool) (run1 : sdb * bool -> sdb * bool) : Prop :=
     Inv (fst (run1 (y, b))) /\ (s_next y <= s_next (fst (run1 (y, b))))%N /\
     (forall x id, anchored x y id -> anchored x (fst (run1 (y, b))) id).
 
-Lemma frames_ok fx body : Forall (fun f => frame_ok fx (exec fx f)) body ->
-  frame_ok fx (fun acc => fold_left (fun acc g => exec fx g acc) body acc).
+Lemma frames_ok fx oog body : Forall (fun f => frame_ok fx (exec fx oog f)) body ->
+  frame_ok fx (fun acc => fold_left (fun acc g => exec fx oog g acc) body acc).
 Proof.
   induction body as [|g l IH]; intros F y b I H; cbn [fold_left] in *.
   - cbn [fst]. split; [exact I|split; [lia|auto]].
   - inversion F as [|? ? Fg Fl]; subst.
-    assert (snd (exec fx g (y, b)) = true) as Hg
-      by (apply (fold_flag fx l (fun f y0 b0 _ => exec_flag fx f y0 b0)); exact H).
+    assert (snd (exec fx oog g (y, b)) = true) as Hg
+      by (apply (fold_flag fx oog l (fun f y0 b0 _ => exec_flag fx oog f y0 b0)); exact H).
     destruct (Fg y b I Hg) as (I1 & N1 & A1).
-    destruct (exec fx g (y, b)) as [y1 b1] eqn:E1. cbn [fst snd] in *.
+    destruct (exec fx oog g (y, b)) as [y1 b1] eqn:E1. cbn [fst snd] in *.
     destruct (IH Fl y1 b1 I1 H) as (I2 & N2 & A2).
     split; [exact I2|split; [lia|]]. intros x id A. apply A2. apply A1. exact A.
 Qed.
 
-Lemma exec_ok fx f : frame_ok fx (exec fx f).
+Lemma exec_ok fx oog f : frame_ok fx (exec fx oog f).
 Proof.
-  induction f as [o|body fails IHb] using frame_ind'; intros y b I H.
+  induction f as [o|body e IHb] using frame_ind'; intros y b I H.
   - cbn [exec fst snd] in *. apply andb_prop in H as [H B]. apply andb_prop in H as [_ M].
     split; [apply Inv_step; assumption|split].
     + destruct (step_mut fx y o M) as (_ & _ & E3 & _). rewrite E3. lia.
@@ -1125,12 +1125,13 @@ Proof.
   - cbn [exec fst snd] in *.
     set (y1 := fst (step fx y OSnapshot)) in *.
     assert (I1 : Inv y1) by (apply Inv_step; [exact I|reflexivity]).
-    assert (Hr : snd (fold_left (fun acc g => exec fx g acc) body (y1, b)) = true) by (destruct fails; exact H).
-    destruct (frames_ok fx body IHb y1 b I1 Hr) as (I2 & N2 & A2).
+    assert (Hr : snd (fold_left (fun acc g => exec fx oog g acc) body (y1, b)) = true)
+      by (destruct (ending_reverts oog e); exact H).
+    destruct (frames_ok fx oog body IHb y1 b I1 Hr) as (I2 & N2 & A2).
     assert (s_next y1 = s_next y + 1)%N as Ny by reflexivity.
-    destruct fails; cbn [fst snd].
+    destruct (ending_reverts oog e); cbn [fst snd].
     + (* the frame fails: RevertToSnapshot(id of this frame) *)
-      set (y2 := fst (fold_left (fun acc g => exec fx g acc) body (y1, b))) in *.
+      set (y2 := fst (fold_left (fun acc g => exec fx oog g acc) body (y1, b))) in *.
       assert (Old : forall r, In r (s_revs y) -> (fst r < s_next y)%N) by (intros r Hr0; apply (inv_ids y I r Hr0)).
       pose proof (A2 y (s_next y) (anchored_self fx y)) as Ay.
       destruct (revert_anchored fx y y2 (s_next y) Old Ay) as (_ & Ec & Ej & Er & En).
@@ -1139,18 +1140,20 @@ Proof.
     + split; [exact I2|split; [lia|]]. intros x id A. apply A2. apply anchored_snapshot. exact A.
 Qed.
 
-(* a failing frame, at any depth, leaves the journalled state exactly as it found it *)
-Lemma failed_frame_restores fx y body :
-  Inv y -> snd (exec fx (FCall body true) (y, true)) = true ->
-  let y' := fst (exec fx (FCall body true) (y, true)) in
+(* a frame that ends in an error for which the EVM reverts, at any depth, leaves the journalled state
+   exactly as it found it *)
+Lemma failed_frame_restores fx oog y body e :
+  ending_reverts oog e = true ->
+  Inv y -> snd (exec fx oog (FCall body e) (y, true)) = true ->
+  let y' := fst (exec fx oog (FCall body e) (y, true)) in
   m_core (s_m y') = m_core (s_m y) /\ m_jr (s_m y') = m_jr (s_m y) /\ s_revs y' = s_revs y /\ Inv y'.
 Proof.
-  intros I H y'. pose proof (exec_ok fx (FCall body true) y true I H) as (I' & _ & _).
-  subst y'. cbn [exec fst snd] in *.
+  intros R I H y'. pose proof (exec_ok fx oog (FCall body e) y true I H) as (I' & _ & _).
+  subst y'. cbn [exec fst snd] in *. rewrite R in *.
   set (y1 := fst (step fx y OSnapshot)) in *.
   assert (I1 : Inv y1) by (apply Inv_step; [exact I|reflexivity]).
-  assert (IHb : Forall (fun f => frame_ok fx (exec fx f)) body) by (apply Forall_forall; intros f _; apply exec_ok).
-  destruct (frames_ok fx body IHb y1 true I1 H) as (_ & _ & A2).
+  assert (IHb : Forall (fun f => frame_ok fx (exec fx oog f)) body) by (apply Forall_forall; intros f _; apply exec_ok).
+  destruct (frames_ok fx oog body IHb y1 true I1 H) as (_ & _ & A2).
   assert (Old : forall r, In r (s_revs y) -> (fst r < s_next y)%N) by (intros r Hr0; apply (inv_ids y I r Hr0)).
   destruct (revert_anchored fx y _ (s_next y) Old (A2 y (s_next y) (anchored_self fx y))) as (_ & Ec & Ej & Er & _).
   auto.
